@@ -570,6 +570,8 @@ func (e *Env) call(x *ECall) Val {
 				return scalar(types.NewPointer(l.Owner), l.Ref)
 			case LSlot:
 				return scalar(types.NewPointer(l.TreeOwner), l.Ref)
+			case LFieldElem:
+				return Val{K: KScalar, Srt: "Int", S: "0"} // a child slot belongs to no tree header
 			}
 		}
 		efail("%s of %s", x.Fn, describe(v))
